@@ -116,6 +116,46 @@ def huge(ctx):
                 ctx.violation("re-encoding a decoded emitted blob changes the bytes", what, "differs", "identical")
 
 
+
+def edited(ctx, blobs):
+    """blob objects are mutable: a value that came from unpack (or was packed before) and is then edited field by field must encode
+    as the value it NOW holds — the canonical bytes of the current fields, in both layouts — and decode back to it"""
+    import dataclasses
+    from dpapi_ng._blob import DPAPINGBlob
+    fields = [f.name for f in dataclasses.fields(DPAPINGBlob) if f.init and not f.name.startswith("_")]
+    good = [b for b in blobs if wf(b) and len(b.enc_content) < 70000]
+    for i in range(0, len(good) - 1, 2):
+        a, b2 = good[i], good[i + 1]
+        for in_env in (True, False):
+            for origin in ("unpacked", "packed-before"):
+                try:
+                    x = DPAPINGBlob.unpack(a.pack(blob_in_envelope=in_env)) if origin == "unpacked" else dataclasses.replace(a)
+                    x.pack(blob_in_envelope=in_env)
+                except Exception:  # noqa
+                    continue
+                order = fields[:]
+                ctx.rng.shuffle(order)
+                for name in order:
+                    setattr(x, name, getattr(b2, name))
+                    ctx.count("edited:" + origin)
+                    what = {"scenario": "edited", "origin": origin, "in_envelope": in_env, "edited_field": name, "blob": blob_fields(x)[:300]}
+                    for layout in (in_env, not in_env):
+                        try:
+                            raw = x.pack(blob_in_envelope=layout)
+                        except Exception as e:  # noqa
+                            ctx.violation("an edited blob value fails to encode", what, f"{type(e).__name__}: {e}", "ok")
+                            break
+                        want = template(x, layout)
+                        if raw != want:
+                            ctx.violation("an edited blob does not encode as the value it now holds (emitted bytes differ from the canonical layout of the current fields)",
+                                          {**what, "packed_layout_in_envelope": layout}, hx(raw)[:200], hx(want)[:200])
+                            return
+                        back = DPAPINGBlob.unpack(raw)
+                        if blob_fields(back) != blob_fields(x) and (layout or x.enc_content):
+                            ctx.violation("decode(encode(x)) != x for an edited blob", {**what, "packed_layout_in_envelope": layout}, blob_fields(back)[:300], blob_fields(x)[:300])
+                            return
+
+
 def run(ctx):
     from dpapi_ng._blob import DPAPINGBlob, ProtectionDescriptor
     prelude.validate(ctx)
@@ -226,6 +266,7 @@ def run(ctx):
             ctx.count("malformed:bitflip")
     for i in range(0, len(cases), 3000):
         ctx.compare_batch(cases[i:i + 3000], nontrivial=lambda line, impl: impl.startswith("ok"))
+    edited(ctx, blobs)
     huge(ctx)
 
 
